@@ -200,7 +200,7 @@ func c10Recursions(c *Ctx) *RuleResult {
 				}
 				mentions := false
 				ast.Inspect(g.Cond, func(m ast.Node) bool {
-					if sel, ok := m.(*ast.SelectorExpr); ok && (sel.Sel.Name == "subdirectories" || sel.Sel.Name == "pathsToUpload") {
+					if sel, ok := m.(*ast.SelectorExpr); ok && (sel.Sel.Name == p.LookupField(builderPkg, "outputNode", "subdirectories").Name() || sel.Sel.Name == p.LookupField(builderPkg, "outputNode", "pathsToUpload").Name()) {
 						mentions = true
 					}
 					return true
